@@ -28,6 +28,14 @@ func hexs(b []byte) string { return hex.EncodeToString(b) }
 func cp(b []byte) []byte   { return append([]byte{}, b...) }
 func b32(x *big.Int) []byte { return x.FillBytes(make([]byte, 32)) }
 
+func strs(l []*big.Int) []string {
+	p := make([]string, len(l))
+	for i, x := range l {
+		p[i] = x.String()
+	}
+	return p
+}
+
 func randScalar(r *hx.Rng) *big.Int {
 	switch r.Intn(16) {
 	case 0:
@@ -848,6 +856,177 @@ func main() {
 					}
 					cs.Add(fmt.Sprintf("(TextScalar %s %s %s)", hx.CoqStr(v.text), hx.CoqBool(e != nil), zs(got)), in)
 				}
+			}
+		}
+
+		// ---- purity: no groupsig API call may modify its arguments (keys and signatures hold pointers to curve
+		// points, so a "value copy" shares the point). Every input is serialized before and after each call; honest
+		// (pk, msg, sig) triples are verified again AFTER the aggregation-type calls that took them as arguments.
+		{
+			nm := 2 + rng.Intn(4) // members
+			secs := make([]groupsig.Seckey, nm)
+			pubs := make([]groupsig.Pubkey, nm)
+			sigs := make([]groupsig.Signature, nm)
+			ids := make([]groupsig.ID, nm)
+			skvals := make([]*big.Int, nm)
+			for i := 0; i < nm; i++ {
+				skvals[i] = randScalar(rng)
+				secs[i] = *groupsig.NewSeckeyFromBigInt(new(big.Int).Set(skvals[i]))
+				pubs[i] = *groupsig.GeneratePubkey(secs[i])
+				sigs[i] = groupsig.Sign(secs[i], msg)
+				ids[i] = *groupsig.NewIDFromPubkey(pubs[i])
+			}
+			pmsg := cp(msg)
+			snap := func() []string {
+				var o []string
+				for i := 0; i < nm; i++ {
+					o = append(o, "sec:"+hexs(secs[i].Serialize()), "pub:"+hexs(pubs[i].Serialize()), "sig:"+hexs(sigs[i].Serialize()), "id:"+hexs(ids[i].Serialize()))
+				}
+				return append(o, "msg:"+hexs(pmsg))
+			}
+			heavy := inst < 2 || thorough
+			pure := func(fn, call string, f func()) {
+				before := snap()
+				pan := ""
+				func() {
+					defer func() {
+						if r := recover(); r != nil {
+							pan = fmt.Sprint(r)
+						}
+					}()
+					f()
+				}()
+				after := snap()
+				id := fmt.Sprintf("%d/pure/%s/%s", inst, fn, call)
+				changed := []map[string]string{}
+				for i := range before {
+					if before[i] != after[i] {
+						changed = append(changed, map[string]string{"object": fmt.Sprintf("member %d / %s", i/4, strings.SplitN(before[i], ":", 2)[0]), "before": before[i], "after": after[i]})
+					}
+				}
+				cls := "pure:" + fn + ":unchanged"
+				if pan != "" {
+					cls = "pure:" + fn + ":panic"
+				} else if len(changed) > 0 {
+					cls = "pure:" + fn + ":MODIFIED"
+				}
+				res.Count(cls, id, true)
+				in := map[string]interface{}{"call": fn + "(" + call + ")", "members": nm, "msg": hexs(msg), "secret_keys": strs(skvals), "changed": changed}
+				if pan != "" {
+					viol("C14/panic:"+fn, fn+" panicked: "+pan, in)
+				}
+				if len(changed) > 0 {
+					viol("C14/pure:argument-modified:"+fn, fn+" modified an object passed to it (serialization before/after differs)", in)
+				}
+			}
+			// every member key still verifies exactly its own signature
+			reverify := func(after string) {
+				for i := 0; i < nm; i++ {
+					j := (i + 1) % nm
+					ok := groupsig.VerifySig(pubs[i], pmsg, sigs[i])
+					cross := groupsig.VerifySig(pubs[i], pmsg, sigs[j])
+					res.Count(fmt.Sprintf("pure:reverify-after-%s:own=%v,other=%v", after, ok, cross), fmt.Sprintf("%d/rev/%s/%d", inst, after, i), true)
+					if !ok || cross {
+						viol("C14/pure:verification-changed-after:"+after, "after "+after+" a member key no longer verifies its own signature, or verifies another member's",
+							map[string]interface{}{"member": i, "own_accepted": ok, "other_accepted": cross, "pk_now": hexs(pubs[i].Serialize()), "sk": skvals[i].String(), "msg": hexs(msg), "members": nm})
+					}
+				}
+			}
+			var gpk *groupsig.Pubkey
+			var gsk *groupsig.Seckey
+			pure("AggregatePubkeys", "all members", func() { gpk = groupsig.AggregatePubkeys(pubs) })
+			pure("AggregatePubkeys", "first member only", func() { groupsig.AggregatePubkeys(pubs[:1]) })
+			pure("AggregatePubkeys", "first two members", func() { groupsig.AggregatePubkeys(pubs[:2]) })
+			pure("AggregatePubkeys", "last two members", func() { groupsig.AggregatePubkeys(pubs[nm-2:]) })
+			pure("AggregatePubkeys", "rotated: last member first", func() {
+				groupsig.AggregatePubkeys(append([]groupsig.Pubkey{pubs[nm-1]}, pubs[:nm-1]...))
+			})
+			pure("AggregateSeckeys", "all members", func() { gsk = groupsig.AggregateSeckeys(secs) })
+			pure("AggregateSeckeys", "first two members", func() { groupsig.AggregateSeckeys(secs[:2]) })
+			pure("AggregateSeckeys", "rotated: last member first", func() {
+				groupsig.AggregateSeckeys(append([]groupsig.Seckey{secs[nm-1]}, secs[:nm-1]...))
+			})
+			if heavy {
+				reverify("Aggregate")
+				if gpk != nil && gsk != nil {
+					gs := groupsig.Sign(*gsk, pmsg)
+					if !groupsig.VerifySig(*gpk, pmsg, gs) || !gpk.IsEqual(*groupsig.GeneratePubkey(*gsk)) {
+						viol("C14/aggregate:group-key", "the aggregated public key does not match the aggregated secret key", map[string]interface{}{"secret_keys": strs(skvals), "msg": hexs(msg)})
+					}
+					if groupsig.VerifySig(pubs[0], pmsg, gs) {
+						viol("C14/pure:verification-changed-after:Aggregate", "after aggregation the first member's key verifies the GROUP signature",
+							map[string]interface{}{"pk_now": hexs(pubs[0].Serialize()), "secret_keys": strs(skvals), "msg": hexs(msg)})
+					}
+				}
+			}
+			pure("ShareSeckey", "polynomial = member secrets, id of member 0", func() { groupsig.ShareSeckey(secs, ids[0]) })
+			pure("Sign", "member 0", func() { groupsig.Sign(secs[0], pmsg) })
+			pure("GeneratePubkey", "member 0", func() { groupsig.GeneratePubkey(secs[0]) })
+			pure("NewIDFromPubkey", "member 0", func() { groupsig.NewIDFromPubkey(pubs[0]) })
+			pure("Serialize/GetHexString/IsEqual/IsValid", "all objects of members 0 and 1", func() {
+				pubs[0].GetHexString()
+				sigs[0].GetHexString()
+				secs[0].GetHexString()
+				ids[0].GetHexString()
+				pubs[0].IsEqual(pubs[1])
+				sigs[0].IsEqual(sigs[1])
+				secs[0].IsEqual(secs[1])
+				ids[0].IsEqual(ids[1])
+				pubs[0].IsValid()
+				sigs[0].IsValid()
+				pubs[0].GetAddress()
+				ids[0].ToAddress()
+			})
+			if heavy {
+				pure("VerifySig", "member 0, own signature", func() { groupsig.VerifySig(pubs[0], pmsg, sigs[0]) })
+				pure("VerifySig", "member 0, member 1's signature", func() { groupsig.VerifySig(pubs[0], pmsg, sigs[1]) })
+			}
+			{
+				m := map[string]groupsig.Signature{}
+				for i := 0; i < nm; i++ {
+					m[ids[i].GetHexString()] = sigs[i]
+				}
+				pure("RecoverGroupSignature", fmt.Sprintf("all members, threshold %d", nm), func() { groupsig.RecoverGroupSignature(m, nm) })
+				if nm > 2 {
+					pure("RecoverGroupSignature", fmt.Sprintf("all members, threshold %d", nm-1), func() { groupsig.RecoverGroupSignature(m, nm-1) })
+				}
+			}
+			// parsers must copy: the parsed object may not alias (or modify) the caller's buffer
+			{
+				sb := sigs[0].Serialize()
+				pb := pubs[0].Serialize()
+				sb0, pb0 := cp(sb), cp(pb)
+				ps := groupsig.DeserializeSign(sb)
+				pp := groupsig.ByteToPublicKey(pb)
+				mod := !bytes.Equal(sb, sb0) || !bytes.Equal(pb, pb0)
+				for i := range sb {
+					sb[i] ^= 0xff
+				}
+				for i := range pb {
+					pb[i] ^= 0xff
+				}
+				alias := !bytes.Equal(ps.Serialize(), sb0) || !bytes.Equal(pp.Serialize(), pb0)
+				res.Count(fmt.Sprintf("pure:Deserialize:buffer-modified=%v,aliases-buffer=%v", mod, alias), fmt.Sprintf("%d/pure/deser", inst), true)
+				if mod || alias {
+					viol("C14/pure:argument-modified:Deserialize", "DeserializeSign/ByteToPublicKey modified the input buffer or the parsed object aliases it",
+						map[string]interface{}{"sig": hexs(sb0), "pk": hexs(pb0), "buffer_modified": mod, "aliases": alias})
+				}
+			}
+			// NewSeckeyFromBigInt: the caller's big.Int (also one that is >= r)
+			for _, v := range []*big.Int{new(big.Int).Set(skvals[0]), new(big.Int).Add(skvals[0], order), new(big.Int).SetBytes(bytes.Repeat([]byte{0xff}, 32))} {
+				b0 := new(big.Int).Set(v)
+				k := groupsig.NewSeckeyFromBigInt(v)
+				okv := k.GetBigInt().Cmp(new(big.Int).Mod(b0, order)) == 0
+				res.Count(fmt.Sprintf("pure:NewSeckeyFromBigInt:arg-unchanged=%v,value-ok=%v", v.Cmp(b0) == 0, okv), fmt.Sprintf("%d/pure/nsk/%s", inst, b0.String()), true)
+				if v.Cmp(b0) != 0 {
+					viol("C14/pure:argument-modified:NewSeckeyFromBigInt", "NewSeckeyFromBigInt reduced the caller's big.Int in place", map[string]interface{}{"before": b0.String(), "after": v.String()})
+				}
+				if !okv {
+					viol("C14/roundtrip:seckey-from-bigint", "NewSeckeyFromBigInt(b) is not b mod r", map[string]interface{}{"b": b0.String(), "got": k.GetBigInt().String()})
+				}
+			}
+			if heavy {
+				reverify("all-calls")
 			}
 		}
 
